@@ -342,18 +342,49 @@ def _match(pattern, klass):
     return True
 
 
+def _exception_in_code_under_test(ex):
+    """An exception no replay anticipated. If it was RAISED INSIDE the package under test (innermost frame under
+    <tree>/src) in a call for which the specification predicts a result, the code misbehaved: that is reported as a
+    violation (on the unchanged tree no replay raises). Anything raised in the harness itself - including a call of a
+    package function that does not exist any more or takes other arguments - stays a machinery failure."""
+    import hashlib
+    import traceback
+
+    tb = traceback.extract_tb(ex.__traceback__)
+    src = os.path.realpath(os.path.join(REPO, "src")) + os.sep
+    if not tb or not os.path.realpath(tb[-1].filename).startswith(src):
+        return None
+    if not any(os.path.realpath(f.filename).startswith(os.path.realpath(VERIF) + os.sep) for f in tb):
+        return None
+    prop = sys.argv[1] if len(sys.argv) > 1 else "unknown"
+    where = [f for f in tb if os.path.realpath(f.filename).startswith(os.path.realpath(VERIF) + os.sep)][-1]
+    what = "a replay for which the specification predicts a result raised %s: %s (in %s:%d, called from %s:%d)" % (
+        type(ex).__name__, str(ex)[:160], os.path.relpath(tb[-1].filename, REPO), tb[-1].lineno, os.path.relpath(where.filename, VERIF), where.lineno)
+    d = os.path.join(REPLAYS, prop)
+    os.makedirs(d, exist_ok=True)
+    path = os.path.join(d, "exception_%s.json" % hashlib.sha1(what.encode()).hexdigest()[:12])
+    with open(path, "w") as fh:
+        json.dump({"property": prop, "what": what, "class": {"check": "uncaught_exception", "exception": type(ex).__name__},
+                   "traceback": traceback.format_exception(type(ex), ex, ex.__traceback__)}, fh, indent=1)
+    print("VIOLATION property=%s replay=%s" % (prop, path))
+    print("  what: " + what)
+    return 1
+
+
 def main_wrapper(fn):
     try:
         rc = fn()
     except MachineryError as e:
         print("MACHINERY-FAILURE: %s" % e)
         rc = 2
-    except Exception:
+    except Exception as ex:
         import traceback
 
         traceback.print_exc()
-        print("MACHINERY-FAILURE: unexpected exception in the harness")
-        rc = 2
+        rc = _exception_in_code_under_test(ex)
+        if rc is None:
+            print("MACHINERY-FAILURE: unexpected exception in the harness")
+            rc = 2
     sys.stdout.flush()
     sys.stderr.flush()
     # skip interpreter-shutdown handlers of the package under test (pyfftw's cache thread cannot be
